@@ -36,3 +36,18 @@ Proof.
   pose proof (@partial_unfold_fold A d u' m s sb se rav Hw' Hm Hs' Hn) as H2.
   rewrite Hf in H1. rewrite Hf' in H2. cbn [rbind] in H1, H2. congruence.
 Qed.
+
+(* surjectivity: every matrix (vector) of the accepted shape IS the unfolding (vectorisation) of the tensor fold (vec_to_tensor) makes of it *)
+Lemma unfold_surjective : forall (A : Type) (d : A) (u : tensor A) (m : nat) (s : list nat),
+  wf u -> m < length s -> nth m s 0 <> 0 -> shape u = [nth m s 0; prod (remove_nth m s)] ->
+  exists t, fold d u m s = Ok t /\ unfold d t m = Ok u.
+Proof.
+  intros A d u m s Hw Hm Hn Hs. pose proof (@unfold_fold A d u m s Hw Hm Hn Hs) as H.
+  destruct (fold d u m s) as [t|]; cbn [rbind] in H; [exists t; split; [reflexivity|exact H]|discriminate].
+Qed.
+Lemma vec_surjective : forall (A : Type) (v : tensor A) (s : list nat),
+  shape v = [prod s] -> exists t, vec_to_tensor v s = Ok t /\ tensor_to_vec t = Ok v.
+Proof.
+  intros A v s Hs. pose proof (@vec_unvec_roundtrip A v s Hs) as H.
+  destruct (vec_to_tensor v s) as [t|]; cbn [rbind] in H; [exists t; split; [reflexivity|exact H]|discriminate].
+Qed.
